@@ -10,7 +10,8 @@
    Go function                           model
    -----------------------------------  ------------------------------------------
    doHandshake (reading the SETTINGS)    cl_init
-   Conn.Write (both selects)             cl_submit          (with roundTripOnce's acquireCtx/arming)
+   Conn.Write: first select              cl_submit          (with roundTripOnce's acquireCtx/arming)
+   Conn.Write: second select             cl_submit_check
    roundTripOnce after <-ctx.Err         cl_receive         (reusable, takeBack, releaseCtx, retryable)
    Ctx.acquireFor / acquire              cl_acquire_for / inside cl_write_request
    Ctx.resolve markFinished              cl_ctx_resolve / ctu_finished
@@ -28,8 +29,8 @@
    dispatch finish goneAway              cl_dispatch cl_finish cl_gone_away
    readStream readHeaderFragment readHeaderField updateWindow    cl_read_stream cl_read_header_fragment cl_read_header_field
 
-   Atomicity: one select case of the write loop, one frame of the read loop, one
-   call of Conn.Write, each of the two halves of Close and of fireTimeout, and
+   Atomicity: one select case of the write loop, one frame of the read loop, each
+   of the two selects of Conn.Write, each of the two halves of Close and of fireTimeout, and
    the tail of roundTripOnce are single steps. Mutexes other than Ctx.lck are
    taken and released inside one Go function and never nested in themselves;
    Ctx.lck is tracked: every function that can lock one gets the list of the
@@ -51,7 +52,8 @@ Inductive cerr : Type :=
 | CEReset (code : N)    (* NewResetStreamError(code, "stream reset by the server") *)
 | CEMalformed           (* errInvalidStatus errPseudoAfterRegular errUpperCaseHeader errConnectionSpecific errInvalidContentLength, invalid pseudo-header *)
 | CEConn                (* whatever ended the connection: read errors, GOAWAY-type Errors, io.ErrUnexpectedEOF, ErrTimeout *)
-| CEWrite.              (* a failed socket write, bare or as WriteError *)
+| CEWrite               (* a failed socket write, bare or as WriteError *)
+| CEBody.               (* "reading the request body: ...": the caller's body reader failed *)
 
 (* retryable(err) *)
 Definition cl_retryable (e : cerr) : bool :=
@@ -176,8 +178,9 @@ Definition cl_maxWindow : Z := 1048576.            (* NewConn: maxWindow = 1 << 
 Definition cl_maxHeaderPrev : N := 1048576.        (* DefaultMaxHeaderListSize *)
 Definition S_user_agent : bytes := [117; 115; 101; 114; 45; 97; 103; 101; 110; 116].
 
-(* bytes.EqualFold(k, StringUserAgent), on ASCII names *)
+(* ToLower: only 'A'..'Z' change (c | 32 = c + 32 there); also bytes.EqualFold(k, StringUserAgent) on ASCII names *)
 Definition cl_fold_ascii (b : bytes) : bytes := map (fun c => if (65 <=? c) && (c <=? 90) then c + 32 else c) b.
+Definition cl_to_lower (b : bytes) : bytes := cl_fold_ascii b.
 Definition cl_is_user_agent (k : bytes) : bool := bytes_eqb (cl_fold_ascii k) S_user_agent.
 
 Definition cl_is_nil {A} (l : list A) : bool := match l with [] => true | _ => false end.
@@ -200,49 +203,52 @@ Record cctx : Type := mkCCtx {
   ct_cancelled : bool;   (* fireTimeout has got past its resolve and run cancel *)
   ct_gotStatus : bool;   (* gotStatus *)
   ct_bodyClosed : bool;   (* the connection has called Request.CloseBodyStream *)
+  ct_writing : bool;   (* the caller is inside Conn.Write, between its two selects *)
   ct_returned : bool;   (* roundTripOnce has returned to its caller *)
   ct_pooled : bool;   (* releaseCtx: back in clientCtxPool *)
   ct_lckStuck : bool   (* lck is held by a goroutine that will never release it *)
 }.
 
 Definition ctu_tag (r : cctx) (v : N) : cctx :=
-  mkCCtx v (ct_req r) (ct_resp r) (ct_sid r) (ct_conn r) (ct_done r) (ct_resolved r) (ct_finished r) (ct_err r) (ct_armed r) (ct_fired r) (ct_cancelled r) (ct_gotStatus r) (ct_bodyClosed r) (ct_returned r) (ct_pooled r) (ct_lckStuck r).
+  mkCCtx v (ct_req r) (ct_resp r) (ct_sid r) (ct_conn r) (ct_done r) (ct_resolved r) (ct_finished r) (ct_err r) (ct_armed r) (ct_fired r) (ct_cancelled r) (ct_gotStatus r) (ct_bodyClosed r) (ct_writing r) (ct_returned r) (ct_pooled r) (ct_lckStuck r).
 Definition ctu_req (r : cctx) (v : crequest) : cctx :=
-  mkCCtx (ct_tag r) v (ct_resp r) (ct_sid r) (ct_conn r) (ct_done r) (ct_resolved r) (ct_finished r) (ct_err r) (ct_armed r) (ct_fired r) (ct_cancelled r) (ct_gotStatus r) (ct_bodyClosed r) (ct_returned r) (ct_pooled r) (ct_lckStuck r).
+  mkCCtx (ct_tag r) v (ct_resp r) (ct_sid r) (ct_conn r) (ct_done r) (ct_resolved r) (ct_finished r) (ct_err r) (ct_armed r) (ct_fired r) (ct_cancelled r) (ct_gotStatus r) (ct_bodyClosed r) (ct_writing r) (ct_returned r) (ct_pooled r) (ct_lckStuck r).
 Definition ctu_resp (r : cctx) (v : cresponse) : cctx :=
-  mkCCtx (ct_tag r) (ct_req r) v (ct_sid r) (ct_conn r) (ct_done r) (ct_resolved r) (ct_finished r) (ct_err r) (ct_armed r) (ct_fired r) (ct_cancelled r) (ct_gotStatus r) (ct_bodyClosed r) (ct_returned r) (ct_pooled r) (ct_lckStuck r).
+  mkCCtx (ct_tag r) (ct_req r) v (ct_sid r) (ct_conn r) (ct_done r) (ct_resolved r) (ct_finished r) (ct_err r) (ct_armed r) (ct_fired r) (ct_cancelled r) (ct_gotStatus r) (ct_bodyClosed r) (ct_writing r) (ct_returned r) (ct_pooled r) (ct_lckStuck r).
 Definition ctu_sid (r : cctx) (v : N) : cctx :=
-  mkCCtx (ct_tag r) (ct_req r) (ct_resp r) v (ct_conn r) (ct_done r) (ct_resolved r) (ct_finished r) (ct_err r) (ct_armed r) (ct_fired r) (ct_cancelled r) (ct_gotStatus r) (ct_bodyClosed r) (ct_returned r) (ct_pooled r) (ct_lckStuck r).
+  mkCCtx (ct_tag r) (ct_req r) (ct_resp r) v (ct_conn r) (ct_done r) (ct_resolved r) (ct_finished r) (ct_err r) (ct_armed r) (ct_fired r) (ct_cancelled r) (ct_gotStatus r) (ct_bodyClosed r) (ct_writing r) (ct_returned r) (ct_pooled r) (ct_lckStuck r).
 Definition ctu_conn (r : cctx) (v : bool) : cctx :=
-  mkCCtx (ct_tag r) (ct_req r) (ct_resp r) (ct_sid r) v (ct_done r) (ct_resolved r) (ct_finished r) (ct_err r) (ct_armed r) (ct_fired r) (ct_cancelled r) (ct_gotStatus r) (ct_bodyClosed r) (ct_returned r) (ct_pooled r) (ct_lckStuck r).
+  mkCCtx (ct_tag r) (ct_req r) (ct_resp r) (ct_sid r) v (ct_done r) (ct_resolved r) (ct_finished r) (ct_err r) (ct_armed r) (ct_fired r) (ct_cancelled r) (ct_gotStatus r) (ct_bodyClosed r) (ct_writing r) (ct_returned r) (ct_pooled r) (ct_lckStuck r).
 Definition ctu_done (r : cctx) (v : bool) : cctx :=
-  mkCCtx (ct_tag r) (ct_req r) (ct_resp r) (ct_sid r) (ct_conn r) v (ct_resolved r) (ct_finished r) (ct_err r) (ct_armed r) (ct_fired r) (ct_cancelled r) (ct_gotStatus r) (ct_bodyClosed r) (ct_returned r) (ct_pooled r) (ct_lckStuck r).
+  mkCCtx (ct_tag r) (ct_req r) (ct_resp r) (ct_sid r) (ct_conn r) v (ct_resolved r) (ct_finished r) (ct_err r) (ct_armed r) (ct_fired r) (ct_cancelled r) (ct_gotStatus r) (ct_bodyClosed r) (ct_writing r) (ct_returned r) (ct_pooled r) (ct_lckStuck r).
 Definition ctu_resolved (r : cctx) (v : bool) : cctx :=
-  mkCCtx (ct_tag r) (ct_req r) (ct_resp r) (ct_sid r) (ct_conn r) (ct_done r) v (ct_finished r) (ct_err r) (ct_armed r) (ct_fired r) (ct_cancelled r) (ct_gotStatus r) (ct_bodyClosed r) (ct_returned r) (ct_pooled r) (ct_lckStuck r).
+  mkCCtx (ct_tag r) (ct_req r) (ct_resp r) (ct_sid r) (ct_conn r) (ct_done r) v (ct_finished r) (ct_err r) (ct_armed r) (ct_fired r) (ct_cancelled r) (ct_gotStatus r) (ct_bodyClosed r) (ct_writing r) (ct_returned r) (ct_pooled r) (ct_lckStuck r).
 Definition ctu_finished (r : cctx) (v : bool) : cctx :=
-  mkCCtx (ct_tag r) (ct_req r) (ct_resp r) (ct_sid r) (ct_conn r) (ct_done r) (ct_resolved r) v (ct_err r) (ct_armed r) (ct_fired r) (ct_cancelled r) (ct_gotStatus r) (ct_bodyClosed r) (ct_returned r) (ct_pooled r) (ct_lckStuck r).
+  mkCCtx (ct_tag r) (ct_req r) (ct_resp r) (ct_sid r) (ct_conn r) (ct_done r) (ct_resolved r) v (ct_err r) (ct_armed r) (ct_fired r) (ct_cancelled r) (ct_gotStatus r) (ct_bodyClosed r) (ct_writing r) (ct_returned r) (ct_pooled r) (ct_lckStuck r).
 Definition ctu_err (r : cctx) (v : option cerr) : cctx :=
-  mkCCtx (ct_tag r) (ct_req r) (ct_resp r) (ct_sid r) (ct_conn r) (ct_done r) (ct_resolved r) (ct_finished r) v (ct_armed r) (ct_fired r) (ct_cancelled r) (ct_gotStatus r) (ct_bodyClosed r) (ct_returned r) (ct_pooled r) (ct_lckStuck r).
+  mkCCtx (ct_tag r) (ct_req r) (ct_resp r) (ct_sid r) (ct_conn r) (ct_done r) (ct_resolved r) (ct_finished r) v (ct_armed r) (ct_fired r) (ct_cancelled r) (ct_gotStatus r) (ct_bodyClosed r) (ct_writing r) (ct_returned r) (ct_pooled r) (ct_lckStuck r).
 Definition ctu_armed (r : cctx) (v : bool) : cctx :=
-  mkCCtx (ct_tag r) (ct_req r) (ct_resp r) (ct_sid r) (ct_conn r) (ct_done r) (ct_resolved r) (ct_finished r) (ct_err r) v (ct_fired r) (ct_cancelled r) (ct_gotStatus r) (ct_bodyClosed r) (ct_returned r) (ct_pooled r) (ct_lckStuck r).
+  mkCCtx (ct_tag r) (ct_req r) (ct_resp r) (ct_sid r) (ct_conn r) (ct_done r) (ct_resolved r) (ct_finished r) (ct_err r) v (ct_fired r) (ct_cancelled r) (ct_gotStatus r) (ct_bodyClosed r) (ct_writing r) (ct_returned r) (ct_pooled r) (ct_lckStuck r).
 Definition ctu_fired (r : cctx) (v : bool) : cctx :=
-  mkCCtx (ct_tag r) (ct_req r) (ct_resp r) (ct_sid r) (ct_conn r) (ct_done r) (ct_resolved r) (ct_finished r) (ct_err r) (ct_armed r) v (ct_cancelled r) (ct_gotStatus r) (ct_bodyClosed r) (ct_returned r) (ct_pooled r) (ct_lckStuck r).
+  mkCCtx (ct_tag r) (ct_req r) (ct_resp r) (ct_sid r) (ct_conn r) (ct_done r) (ct_resolved r) (ct_finished r) (ct_err r) (ct_armed r) v (ct_cancelled r) (ct_gotStatus r) (ct_bodyClosed r) (ct_writing r) (ct_returned r) (ct_pooled r) (ct_lckStuck r).
 Definition ctu_cancelled (r : cctx) (v : bool) : cctx :=
-  mkCCtx (ct_tag r) (ct_req r) (ct_resp r) (ct_sid r) (ct_conn r) (ct_done r) (ct_resolved r) (ct_finished r) (ct_err r) (ct_armed r) (ct_fired r) v (ct_gotStatus r) (ct_bodyClosed r) (ct_returned r) (ct_pooled r) (ct_lckStuck r).
+  mkCCtx (ct_tag r) (ct_req r) (ct_resp r) (ct_sid r) (ct_conn r) (ct_done r) (ct_resolved r) (ct_finished r) (ct_err r) (ct_armed r) (ct_fired r) v (ct_gotStatus r) (ct_bodyClosed r) (ct_writing r) (ct_returned r) (ct_pooled r) (ct_lckStuck r).
 Definition ctu_gotStatus (r : cctx) (v : bool) : cctx :=
-  mkCCtx (ct_tag r) (ct_req r) (ct_resp r) (ct_sid r) (ct_conn r) (ct_done r) (ct_resolved r) (ct_finished r) (ct_err r) (ct_armed r) (ct_fired r) (ct_cancelled r) v (ct_bodyClosed r) (ct_returned r) (ct_pooled r) (ct_lckStuck r).
+  mkCCtx (ct_tag r) (ct_req r) (ct_resp r) (ct_sid r) (ct_conn r) (ct_done r) (ct_resolved r) (ct_finished r) (ct_err r) (ct_armed r) (ct_fired r) (ct_cancelled r) v (ct_bodyClosed r) (ct_writing r) (ct_returned r) (ct_pooled r) (ct_lckStuck r).
 Definition ctu_bodyClosed (r : cctx) (v : bool) : cctx :=
-  mkCCtx (ct_tag r) (ct_req r) (ct_resp r) (ct_sid r) (ct_conn r) (ct_done r) (ct_resolved r) (ct_finished r) (ct_err r) (ct_armed r) (ct_fired r) (ct_cancelled r) (ct_gotStatus r) v (ct_returned r) (ct_pooled r) (ct_lckStuck r).
+  mkCCtx (ct_tag r) (ct_req r) (ct_resp r) (ct_sid r) (ct_conn r) (ct_done r) (ct_resolved r) (ct_finished r) (ct_err r) (ct_armed r) (ct_fired r) (ct_cancelled r) (ct_gotStatus r) v (ct_writing r) (ct_returned r) (ct_pooled r) (ct_lckStuck r).
+Definition ctu_writing (r : cctx) (v : bool) : cctx :=
+  mkCCtx (ct_tag r) (ct_req r) (ct_resp r) (ct_sid r) (ct_conn r) (ct_done r) (ct_resolved r) (ct_finished r) (ct_err r) (ct_armed r) (ct_fired r) (ct_cancelled r) (ct_gotStatus r) (ct_bodyClosed r) v (ct_returned r) (ct_pooled r) (ct_lckStuck r).
 Definition ctu_returned (r : cctx) (v : bool) : cctx :=
-  mkCCtx (ct_tag r) (ct_req r) (ct_resp r) (ct_sid r) (ct_conn r) (ct_done r) (ct_resolved r) (ct_finished r) (ct_err r) (ct_armed r) (ct_fired r) (ct_cancelled r) (ct_gotStatus r) (ct_bodyClosed r) v (ct_pooled r) (ct_lckStuck r).
+  mkCCtx (ct_tag r) (ct_req r) (ct_resp r) (ct_sid r) (ct_conn r) (ct_done r) (ct_resolved r) (ct_finished r) (ct_err r) (ct_armed r) (ct_fired r) (ct_cancelled r) (ct_gotStatus r) (ct_bodyClosed r) (ct_writing r) v (ct_pooled r) (ct_lckStuck r).
 Definition ctu_pooled (r : cctx) (v : bool) : cctx :=
-  mkCCtx (ct_tag r) (ct_req r) (ct_resp r) (ct_sid r) (ct_conn r) (ct_done r) (ct_resolved r) (ct_finished r) (ct_err r) (ct_armed r) (ct_fired r) (ct_cancelled r) (ct_gotStatus r) (ct_bodyClosed r) (ct_returned r) v (ct_lckStuck r).
+  mkCCtx (ct_tag r) (ct_req r) (ct_resp r) (ct_sid r) (ct_conn r) (ct_done r) (ct_resolved r) (ct_finished r) (ct_err r) (ct_armed r) (ct_fired r) (ct_cancelled r) (ct_gotStatus r) (ct_bodyClosed r) (ct_writing r) (ct_returned r) v (ct_lckStuck r).
 Definition ctu_lckStuck (r : cctx) (v : bool) : cctx :=
-  mkCCtx (ct_tag r) (ct_req r) (ct_resp r) (ct_sid r) (ct_conn r) (ct_done r) (ct_resolved r) (ct_finished r) (ct_err r) (ct_armed r) (ct_fired r) (ct_cancelled r) (ct_gotStatus r) (ct_bodyClosed r) (ct_returned r) (ct_pooled r) v.
+  mkCCtx (ct_tag r) (ct_req r) (ct_resp r) (ct_sid r) (ct_conn r) (ct_done r) (ct_resolved r) (ct_finished r) (ct_err r) (ct_armed r) (ct_fired r) (ct_cancelled r) (ct_gotStatus r) (ct_bodyClosed r) (ct_writing r) (ct_returned r) (ct_pooled r) v.
 (* END generated: cctx *)
 
 Definition cl_new_ctx (tag : N) (rq : crequest) (armed : bool) : cctx :=
-  mkCCtx tag rq cl_empty_resp 0 false false false false None armed false false false false false false false.
+  mkCCtx tag rq cl_empty_resp 0 false false false false None armed false false false false false false false false.
 
 (* ctx.resolve(err) *)
 Definition cl_ctx_resolve (x : cctx) (e : cerr) : cctx :=
@@ -356,7 +362,12 @@ Definition cl_write_data (maxFrame : N) (sid : N) (body : bytes) (endb : bool) :
 (* ---------- response header fields ---------- *)
 
 Definition cl_resp_set_status (r : cresponse) (n : Z) := mkCResp n (cr_cl r) (cr_fields r) (cr_body r).
-Definition cl_resp_set_cl (r : cresponse) (n : Z) := mkCResp (cr_status r) n (cr_fields r) (cr_body r).
+(* fasthttp's ResponseHeader.SetContentLength does nothing while the status is one that cannot have a body
+   (mustSkipContentLength: 1xx, 204, 304) *)
+Definition cl_resp_set_cl (r : cresponse) (n : Z) :=
+  let st := cr_status r in
+  if (negb (st =? 0) && ((st <? 200) || (st =? 204) || (st =? 304)))%Z then r
+  else mkCResp (cr_status r) n (cr_fields r) (cr_body r).
 Definition cl_resp_add_field (r : cresponse) (k v : bytes) := mkCResp (cr_status r) (cr_cl r) (cr_fields r ++ [(k, v)]) (cr_body r).
 Definition cl_resp_append_body (r : cresponse) (d : bytes) := mkCResp (cr_status r) (cr_cl r) (cr_fields r) (cr_body r ++ [d]).
 
@@ -666,7 +677,11 @@ Fixpoint cl_send_pending (fuel : nat) (c : cconn) (id : N) : cconn * cl_spres :=
         match cl_refill pb with
         | None =>
           let '(c1, stuck) := cl_delete_pending 1 [] c id in
-          if stuck then (c1, CSPStuck) else (cl_cancel_stream c1 id c_InternalError, CSPOk)
+          if stuck then (c1, CSPStuck)
+          else
+            (* the stream is reset and the request ended: nothing else is going to end it *)
+            let c2 := cl_take_req_count (cl_cancel_stream c1 id c_InternalError) id in
+            (cl_ctx_upd c2 (pb_tag pb) (fun x => cl_ctx_resolve (ctu_finished x true) CEBody), CSPOk)
         | Some pb' => cl_send_pending fuel' (ccu_pending c (cl_pend_put (cc_pending c) pb')) id
         end
       else
@@ -718,7 +733,7 @@ Definition cl_pending_order (c : cconn) (order : list N) : list N :=
 (* ---------- writeRequest ---------- *)
 
 Definition cl_can_open_stream (c : cconn) : bool :=
-  negb (cc_goAway c) && (cc_nextID c <=? cl_maxStreamID) && (cc_open c <? signed 32 (cc_maxStreams c))%Z.
+  negb (cc_goAway c) && (cc_nextID c <=? cl_maxStreamID) && (cc_open c <? Z.of_N (cc_maxStreams c))%Z.
 
 (* the header block of a request, field by field as writeRequest appends them *)
 Fixpoint cl_enc_req_fields (e : hstate) (l : list (bytes * bytes)) : bytes * hstate :=
@@ -727,7 +742,7 @@ Fixpoint cl_enc_req_fields (e : hstate) (l : list (bytes * bytes)) : bytes * hst
   | (k, v) :: t =>
     if cl_is_user_agent k then cl_enc_req_fields e t
     else
-      let k' := to_lower k in
+      let k' := cl_to_lower k in
       if is_connection_specific k' then cl_enc_req_fields e t
       else
         let '(b1, e1) := enc_field e k' v false in
@@ -1009,7 +1024,7 @@ Definition cl_dispatch (c : cconn) (fr : sframe) : cconn * cl_dres :=
     | Some tag =>
       match cl_acquire_for [] c tag id with
       | CLOk => inl (c, cl_ctx_get c tag)
-      | CLRefused => inl (cl_req_del c id, None)           (* dequeueReq: openStreams is left as it is *)
+      | CLRefused => inl (cl_take_req_count c id, None)    (* whoever takes the stream off the table counts it down *)
       | CLBlocked | CLSelf => inr (cl_go_stuck 0 [] c false tag)
       end
     end in
@@ -1031,6 +1046,12 @@ Definition cl_dispatch (c : cconn) (fr : sframe) : cconn * cl_dres :=
         else (ok1, err)
       | _, _ => (ok1, err)
       end in
+    (* a body has to come after the response headers *)
+    let err2 :=
+      match ok2, err2 with
+      | Some x, CRSNone => if fkind_eqb (sf_kind fr) KData && negb (ct_gotStatus x) then CRSStream CEMalformed else err2
+      | _, _ => err2
+      end in
     let c2 := match ok2 with Some x => cl_ctx_put c1 x | None => c1 end in
     match err2 with
     | CRSPanic => (c2, CDPanic)
@@ -1039,11 +1060,7 @@ Definition cl_dispatch (c : cconn) (fr : sframe) : cconn * cl_dres :=
       (match ok2 with Some x => cl_finish c3 (ct_tag x) id e | None => c3 end, CDStop)
     | CRSStream e =>
       let c3 := match ok2 with Some x => cl_finish c2 (ct_tag x) id e | None => c2 end in
-      (* errors.Is(err, FlowControlError) *)
-      match e with
-      | CEReset code => if code =? c_FlowControlError then (c3, CDStop) else (c3, if cl_gone_away c3 then CDStop else CDCont)
-      | _ => (c3, if cl_gone_away c3 then CDStop else CDCont)
-      end
+      (c3, if cl_gone_away c3 then CDStop else CDCont)
     | CRSNone =>
       let c3 := match ok2 with
                 | Some x => if ended then cl_finish c2 (ct_tag x) id CENil else c2
@@ -1100,17 +1117,30 @@ Definition cl_rl_step (c : cconn) (i : rl_input) : cconn :=
 
 (* ---------- callers, timers, Close ---------- *)
 
-(* roundTripOnce up to and including c.Write(ctx). viaQueue: which case the first
-   select took when both were ready (done closed) *)
+(* roundTripOnce up to the first select of c.Write(ctx). viaQueue: which case that select
+   took when both were ready (done closed) *)
 Definition cl_submit (c : cconn) (tag : N) (rq : crequest) (viaQueue : bool) : cconn :=
   match cl_ctx_get c tag with
   | Some _ => c          (* tags name Ctx objects: never submitted twice *)
   | None =>
     let c1 := ccu_ctxs c (cc_ctxs c ++ [cl_new_ctx tag rq (ccf_armTimers cfg)]) in
-    if cc_closed c1 then
-      let c2 := if viaQueue then ccu_inQ c1 (cc_inQ c1 ++ [tag]) else c1 in
-      cl_resolve c2 tag (cl_close_err c2)
-    else ccu_inQ c1 (cc_inQ c1 ++ [tag])
+    if cc_closed c1 && negb viaQueue then cl_resolve c1 tag (cl_close_err c1)      (* case <-c.done: resolve, return *)
+    else cl_ctx_upd (ccu_inQ c1 (cc_inQ c1 ++ [tag])) tag (fun x => ctu_writing x true)
+  end.
+
+(* the second select of Write: if done is closed by now the Ctx is taken back, unless the write
+   loop has already given it a stream, and only then answered *)
+Definition cl_submit_check (c : cconn) (tag : N) : cconn :=
+  match cl_ctx_get c tag with
+  | None => c
+  | Some x =>
+    if negb (ct_writing x) then c
+    else
+      let x1 := ctu_writing x false in
+      if negb (cc_closed c) then cl_ctx_put c x1
+      else if ct_lckStuck x1 then cl_go_stuck 2 [] (cl_ctx_put c x1) false tag
+      else if ct_sid x1 =? 0 then cl_ctx_put c (cl_ctx_resolve (ctu_done x1 true) (cl_close_err c))
+      else cl_ctx_put c x1
   end.
 
 (* the caller receives from Err: reusable, takeBack, releaseCtx, and RoundTrip's retryable *)
@@ -1169,7 +1199,8 @@ Definition cl_close_finish (c : cconn) : cconn :=
 (* ---------- events and run ---------- *)
 
 Inductive cevent : Type :=
-| CEvSubmit (tag : N) (rq : crequest) (viaQueue : bool)   (* a caller runs roundTripOnce up to Conn.Write *)
+| CEvSubmit (tag : N) (rq : crequest) (viaQueue : bool)   (* a caller runs roundTripOnce up to the first select of Conn.Write *)
+| CEvSubmitCheck (tag : N)     (* the second select of that Write *)
 | CEvWLIn                      (* the write loop takes case ctx := <-c.in *)
 | CEvWLOut                     (* ... case fr := <-c.out *)
 | CEvWLWin (order : list N)    (* ... case <-c.winCh; order: the ids as pendingIDs' map iteration gave them *)
@@ -1189,6 +1220,7 @@ Definition cl_rl_live (c : cconn) : bool := negb (cc_rl_done c) && negb (cc_rl_s
 Definition cl_step (c : cconn) (e : cevent) : cconn :=
   match e with
   | CEvSubmit tag rq q => cl_submit c tag rq q
+  | CEvSubmitCheck tag => cl_submit_check c tag
   | CEvWLIn => if cl_wl_live c then cl_wl_in c else c
   | CEvWLOut => if cl_wl_live c then cl_wl_out c else c
   | CEvWLWin order => if cl_wl_live c then cl_wl_win c order else c
